@@ -66,7 +66,7 @@ async fn recognize(stream: &mut TcpStream) -> Result<Proxy, anyhow::Error> {
 }
 
 fn recognize_http(method: &str, mut path: &str) -> Result<Proxy, anyhow::Error> {
-    if let Some(i) = path.rfind('?') {
+    if let Some(i) = path.find('?') {
         path = &path[..i];
     }
     if path.ends_with('/') {
